@@ -277,8 +277,12 @@ func buildTools(r *lib.Rng, z *zoo) (*object, error) {
 	d.edge(compose.START, "tn")
 	d.edge("tn", compose.END)
 	d.defaultMax()
+	var projRoot any
+	if inChain {
+		projRoot = run
+	}
 	return &object{
-		desc: d,
+		desc: d, roots: []any{run, tn, sharedTn, sharedC}, proj: projRoot,
 		mcall: func(sp spec, si int) string {
 			var tcs []string
 			for i, c := range inputs[sp.In%len(inputs)] {
@@ -548,7 +552,7 @@ func buildReact(r *lib.Rng, z *zoo) (*object, error) {
 	}
 	sharedA := sharedAgentOpts()
 	return &object{
-		desc: d,
+		desc: d, roots: []any{ag, sharedA}, proj: ag,
 		mcall: func(sp spec, si int) string {
 			return callTerm(vMsgs(msgT("user", selfTag+" "+reactScripts[sp.In%len(reactScripts)])),
 				mAgentOpts(si, sp.Opt&^optMaxSteps), 0, sp.Opt&optMaxSteps != 0)
@@ -686,7 +690,7 @@ func buildHost(r *lib.Rng, z *zoo) (*object, error) {
 	}
 	d.defaultMax()
 	return &object{
-		desc: d, depth: 2,
+		desc: d, depth: 2, roots: []any{ma, sharedA}, proj: ma,
 		mcall: func(sp spec, si int) string {
 			return callTerm(vMsgs(msgT("user", selfTag+" "+hostScripts[sp.In%len(hostScripts)])),
 				mAgentOpts(si, sp.Opt&^optMaxSteps), 0)
